@@ -516,7 +516,7 @@ fn script_shape(sc: &Scenario) -> u64 {
 }
 
 pub fn run(ctx: &Ctx) -> i32 {
-    let scripts = ctx.n(160, 2400);
+    let scripts = ctx.n(96, 2400);
     let real_bin = realbin::real_binary_path();
     let rep = run_batch(scripts, ctx.workers, |i| {
         let seed = derive(ctx.seed, "C16", i);
